@@ -53,6 +53,10 @@ pub static CALLS: Mutex<Vec<(String, Value)>> = Mutex::new(Vec::new());
 /// until end of input, so that the server re-enters handle() between protocol units
 pub static UPGRADED_UNIT: AtomicBool = AtomicBool::new(false);
 
+/// when set, the scripted upgraded handler speaks a line protocol: for every complete line of one buffer it writes
+/// "ack:<line>\n", and it hands an incomplete last line back as unread bytes (the documented contract of call_upgraded)
+pub static UPGRADED_LINES: AtomicBool = AtomicBool::new(false);
+
 pub struct ScriptIface {
     pub name: &'static str,
     pub descr: &'static str,
@@ -68,6 +72,26 @@ impl varlink::Interface for ScriptIface {
         self.name
     }
     fn call_upgraded(&self, call: &mut Call, bufreader: &mut dyn BufRead) -> varlink::Result<Vec<u8>> {
+        if UPGRADED_LINES.load(Ordering::SeqCst) {
+            let (n, unread) = {
+                let buf = match bufreader.fill_buf() {
+                    Ok(b) => b,
+                    Err(_) => return Ok(Vec::new()),
+                };
+                let mut start = 0;
+                for (i, c) in buf.iter().enumerate() {
+                    if *c == b'\n' {
+                        call.writer.write_all(b"ack:").map_err(varlink::map_context!())?;
+                        call.writer.write_all(&buf[start..=i]).map_err(varlink::map_context!())?;
+                        start = i + 1;
+                    }
+                }
+                call.writer.flush().map_err(varlink::map_context!())?;
+                (buf.len(), buf[start..].to_vec())
+            };
+            bufreader.consume(n);
+            return Ok(unread);
+        }
         loop {
             let n = {
                 let buf = match bufreader.fill_buf() {
